@@ -58,3 +58,22 @@ Proof. exact residual_bound_norm. Qed.
 Print Assumptions C02_ridge_system_equivalent_forms.
 Print Assumptions C02_ridge_solution_is_unique.
 Print Assumptions C02_small_residual_means_close_to_the_solution.
+
+(* ---------- composition with C05: for the kernels proved positive semi-definite the ridge coefficients are uniquely determined ---------- *)
+Require Import XV.Real.PsdProduct XV.Real.PsdMore XV.Real.PsdCompose.
+(* the Gram matrix of any kernel with a non-negative quadratic form on the centers, plus lambda > 0: one solution only *)
+Theorem C02_ridge_unique_for_psd_kernels : forall k xs (reg : R) a b, psd_on k xs -> (0 < reg)%R -> length a = length xs -> length b = length xs ->
+  mvR (add_diagR reg (gram k xs)) a = mvR (add_diagR reg (gram k xs)) b -> a = b.
+Proof. exact ridge_unique_of_psd. Qed.
+(* instances: the product (L1) Laplace kernel with exponent 1 and the Gaussian case of the L2 kernel — any number of centers, any dimension, any transform *)
+Theorem C02_ridge_unique_product_laplace_q1 : forall t L (reg : R) xs d a b, (0 < L)%R -> wf_tmat t d -> Forall (fun x => length x = d) xs -> (0 < reg)%R ->
+  length a = length xs -> length b = length xs ->
+  mvR (add_diagR reg (gram (laplace_product t L 1) xs)) a = mvR (add_diagR reg (gram (laplace_product t L 1) xs)) b -> a = b.
+Proof. exact ridge_unique_product_q1. Qed.
+Theorem C02_ridge_unique_gaussian : forall t L (reg : R) xs d a b, (0 < L)%R -> wf_tmat t d -> Forall (fun x => length x = d) xs -> (0 < reg)%R ->
+  length a = length xs -> length b = length xs ->
+  mvR (add_diagR reg (gram (laplace_l2 t L 2) xs)) a = mvR (add_diagR reg (gram (laplace_l2 t L 2) xs)) b -> a = b.
+Proof. exact ridge_unique_l2_q2. Qed.
+Print Assumptions C02_ridge_unique_for_psd_kernels.
+Print Assumptions C02_ridge_unique_product_laplace_q1.
+Print Assumptions C02_ridge_unique_gaussian.
